@@ -1,15 +1,38 @@
 (* C08 executable checkers evaluated on the harness' case files.
-   case = (operations, reports produced by the IMPLEMENTATION), one report per
-   Build/BuildRaw: (ReportTimestamp, marshalled length or -1, blocks sorted by
-   SSRC as (ssrc, begin, metric blocks as numbers R*2^18+ECN*2^16+ATO)).
+   case = (operations, reports produced by the IMPLEMENTATION as they were when handed
+   over, THE SAME REPORT OBJECTS read and marshalled again at the end of the history,
+   interceptor events), one report per Build/BuildRaw: (ReportTimestamp, marshalled
+   length or -1, blocks sorted by SSRC as (ssrc, begin, metric blocks as numbers
+   R*2^18+ECN*2^16+ATO)).
+   Round 5: a report handed to the caller / the RTCP writer states what had arrived when
+   it was built; the writer may marshal it later.  So the harness keeps every report
+   object, takes a deep copy at hand-over ([outs]) and projects the kept objects again
+   after the whole history ([late]); both readings are compared with the model and
+   judged by the oracle (late failures are reported as 20 + oracle code).
+   Interceptor cases carry the events (clock settings, packets, ticker values; the value
+   delivered on the ticker channel is independent of the clock): the operations must be
+   the ones the sender model derives from the events (report time = configured clock).
    c08_mismatches    : the model (float kernel on primitive floats) disagrees with the implementation
    c08_spec_failures : the specification oracle (Spec/Rfc8888Spec.v, exact integer
                        arithmetic, independent recount) rejects the implementation's reports *)
 From IV Require Import Base.Word Base.F64 Model.Unwrapper Model.Ntp Model.StreamLog Spec.Rfc8888Spec.
 From IV Require Export Model.Rfc8888Recorder.   (* the constructors Add/Build/BuildRaw used by the case files *)
+From IV Require Export Model.Rfc8888Sender.     (* SNow/SPacket/STick *)
 
 Definition c08out := (Z * Z * list oblock)%type.
-Definition c08case := (list c08op * list c08out)%type.
+Definition c08case := (list c08op * list c08out * list c08out * list sev)%type.
+Definition c_ops (c : c08case) : list c08op := let '(ops, _, _, _) := c in ops.
+Definition c_outs (c : c08case) : list c08out := let '(_, outs, _, _) := c in outs.
+Definition c_late (c : c08case) : list c08out := let '(_, _, late, _) := c in late.
+Definition c_evs (c : c08case) : list sev := let '(_, _, _, evs) := c in evs.
+
+Definition c08op_eqb (a b : c08op) : bool :=
+  match a, b with
+  | Add t s q e, Add t' s' q' e' => (t =? t') && (s =? s') && (q =? q') && (e =? e')
+  | Build t m, Build t' m' => (t =? t') && (m =? m')
+  | BuildRaw t m, BuildRaw t' m' => (t =? t') && (m =? m')
+  | _, _ => false
+  end.
 
 Definition oblock_eqb (a b : oblock) : bool :=
   let '(s1, b1, m1) := a in let '(s2, b2, m2) := b in
@@ -33,14 +56,36 @@ Fixpoint outs_eqb (rts : list Z) (reps : list report) (outs : list c08out) : boo
   | _, _, _ => false
   end.
 
+(* interceptor cases: the operations are the sender model's reading of the events and
+   the sender model itself (loop of interceptor.go) produces the reports handed over *)
+Definition c08_sender_ok (c : c08case) : bool :=
+  match c_evs c with
+  | [] => true
+  | evs => list_eqb c08op_eqb (snd_ops 0 false evs) (c_ops c)
+           && outs_eqb (build_rts (c_ops c)) (snd_run ato_kernel new_sender evs) (c_outs c)
+  end.
+
 Definition c08_model_ok (c : c08case) : bool :=
-  outs_eqb (build_rts (fst c)) (rec_run ato_kernel [] (fst c)) (snd c).
+  let reps := rec_run ato_kernel [] (c_ops c) in
+  let rts := build_rts (c_ops c) in
+  outs_eqb rts reps (c_outs c) && outs_eqb rts reps (c_late c) && c08_sender_ok c.
 
 Definition c08_mismatches (cases : list c08case) : list nat :=
   find_idx (fun c => negb (c08_model_ok c)) cases 0.
 
+Definition oreports (outs : list c08out) : list oreport :=
+  map (fun o : c08out => let '(_, mlen, blocks) := o in (mlen, blocks)) outs.
+
+Definition accepted (k : nat) : bool := match k with 0%nat | 7%nat => true | _ => false end.
+
+(* the oracle on the reports as handed over; if it accepts them (0, or the known 7), the
+   oracle on the same objects read at the end of the history: 20 + its code *)
 Definition c08_spec_code (c : c08case) : nat :=
-  spec_walk [] (fst c) (map (fun o : c08out => let '(_, mlen, blocks) := o in (mlen, blocks)) (snd c)).
+  let a := spec_walk [] (c_ops c) (oreports (c_outs c)) in
+  if accepted a then
+    let b := spec_walk [] (c_ops c) (oreports (c_late c)) in
+    if accepted b then a else (20 + b)%nat
+  else a.
 
 (* (case index, failure code); printed as Z pairs so that the driver's parser reads them *)
 Fixpoint codes_from (cases : list c08case) (i : Z) : list (Z * Z) :=
